@@ -212,9 +212,21 @@ def loop_result_flag_edges(db, m, rt):
     for site, t in lb.switches():
         if t["dty"] != "bool":
             continue
-        roots = lb.origins(t["discr"], through=THROUGH_TRY)
+        # the tested value, looking through negations (`!was_killed`, `exit_mode == Graceful` for a two-valued mode)
+        roots = []
+        neg = False
+        work = [(r, False) for r in lb.origins(t["discr"], through=THROUGH_TRY)]
+        n_ = 0
+        while work and n_ < 40:
+            r, ng = work.pop()
+            n_ += 1
+            if r["k"] == "un" and r.get("op") == "Not":
+                work += [(x, not ng) for x in lb.origins(r["a"], through=THROUGH_TRY)]
+            else:
+                roots.append(r)
+                if r["k"] == "call" and r["call"].bb == loop_aw.poll.bb:
+                    neg = ng
         if any(r["k"] == "call" and r["call"].bb == loop_aw.poll.bb for r in roots):
-            neg = any(s["k"] == "assign" and s["rv"]["k"] == "un" and s["rv"]["op"] == "Not" and s["lhs"][0] == (op_place(t["discr"]) or [None])[0] for _, s in lb.stmts())
             kv = c03.loop_result_fields(db)["killed"][1]       # the value of the flag that means `killed`
             ke, ne = lb.edge_of(site, kv), lb.edge_of(site, other_bool(kv))
             out.append((ne, ke) if neg else (ke, ne))
